@@ -72,3 +72,33 @@ Definition ch_dot    : N := 46%N.   (* . *)
 Definition ch_lbrack : N := 91%N.   (* [ *)
 Definition ch_s      : N := 115%N.  (* s *)
 Definition ch_r      : N := 114%N.  (* r *)
+
+(* ------------------------------------------------------------------------
+   format % args  (interpolate in starlark/eval.go) *)
+Inductive ierr :=
+| IIncompleteKey   (* "%(" with no ")" after it *)
+| INotMapping      (* %(key)c and the right operand is not a mapping *)
+| IKeyNotFound     (* %(key)c and the mapping has no such key *)
+| INotEnough       (* a positional conversion with no operand left *)
+| IIncomplete      (* the template ends where the conversion letter should be *)
+| IBadOperand      (* the conversion does not accept this value (%d of a string, %c of a list...) *)
+| IUnknownConv     (* a conversion letter other than s r d i o x X e f g E F G c % *)
+| ITooMany.        (* positional operands left over *)
+
+Inductive ires :=
+| IOk (out : fbytes)
+| IErr (e : ierr)
+| IPanic
+| IOutOfFuel.
+
+Definition ires_observed (model : ires) (obs : outcome fbytes) : bool :=
+  match model, obs with
+  | IOk x, Ok y => bytes_eqb x y
+  | IErr _, Err => true
+  | IPanic, Panic => true
+  | _, _ => false
+  end.
+
+Definition ch_pct    : N := 37%N.   (* % *)
+Definition ch_lparen : N := 40%N.   (* ( *)
+Definition ch_rparen : N := 41%N.   (* ) *)
